@@ -168,3 +168,71 @@ func (b *Uint32) Peek() uint32 { return b.v.Load() }
 func (b *Uint64) Peek() uint64 { return b.v.Load() }
 func (b *Value) Peek() any     { return b.v.Load() }
 func (b *Pointer[T]) Peek() *T { return b.v.Load() }
+
+// ---- the rest of sync/atomic's surface (Go 1.23): And / Or, Uintptr, the uintptr function forms.
+// Nothing in the pinned tree uses them; a change to the repository may, and must then still build
+// under instrumentation (an unknown identifier would end a check with "harness does not build").
+
+func (b *Int32) And(m int32) int32    { pt("And", b); return res(b.v.And(m), h32) }
+func (b *Int32) Or(m int32) int32     { pt("Or", b); return res(b.v.Or(m), h32) }
+func (b *Int64) And(m int64) int64    { pt("And", b); return res(b.v.And(m), h64) }
+func (b *Int64) Or(m int64) int64     { pt("Or", b); return res(b.v.Or(m), h64) }
+func (b *Uint32) And(m uint32) uint32 { pt("And", b); return res(b.v.And(m), hu32) }
+func (b *Uint32) Or(m uint32) uint32  { pt("Or", b); return res(b.v.Or(m), hu32) }
+func (b *Uint64) And(m uint64) uint64 { pt("And", b); return res(b.v.And(m), hu64) }
+func (b *Uint64) Or(m uint64) uint64  { pt("Or", b); return res(b.v.Or(m), hu64) }
+
+func hup(v uintptr) uint64 { return uint64(v) }
+
+type Uintptr struct{ v atomic.Uintptr }
+
+func (b *Uintptr) Load() uintptr          { pt("Load", b); return res(b.v.Load(), hup) }
+func (b *Uintptr) Store(x uintptr)        { pt("Store", b); b.v.Store(x) }
+func (b *Uintptr) Swap(x uintptr) uintptr { pt("Swap", b); return res(b.v.Swap(x), hup) }
+func (b *Uintptr) Add(x uintptr) uintptr  { pt("Add", b); return res(b.v.Add(x), hup) }
+func (b *Uintptr) And(m uintptr) uintptr  { pt("And", b); return res(b.v.And(m), hup) }
+func (b *Uintptr) Or(m uintptr) uintptr   { pt("Or", b); return res(b.v.Or(m), hup) }
+func (b *Uintptr) CompareAndSwap(o, n uintptr) bool {
+	pt("CompareAndSwap", b)
+	return res(b.v.CompareAndSwap(o, n), hb)
+}
+func (b *Uintptr) Peek() uintptr { return b.v.Load() }
+
+func AndInt32(a *int32, m int32) int32     { pt("AndInt32", a); return res(atomic.AndInt32(a, m), h32) }
+func OrInt32(a *int32, m int32) int32      { pt("OrInt32", a); return res(atomic.OrInt32(a, m), h32) }
+func AndInt64(a *int64, m int64) int64     { pt("AndInt64", a); return res(atomic.AndInt64(a, m), h64) }
+func OrInt64(a *int64, m int64) int64      { pt("OrInt64", a); return res(atomic.OrInt64(a, m), h64) }
+func AndUint32(a *uint32, m uint32) uint32 { pt("AndUint32", a); return res(atomic.AndUint32(a, m), hu32) }
+func OrUint32(a *uint32, m uint32) uint32  { pt("OrUint32", a); return res(atomic.OrUint32(a, m), hu32) }
+func AndUint64(a *uint64, m uint64) uint64 { pt("AndUint64", a); return res(atomic.AndUint64(a, m), hu64) }
+func OrUint64(a *uint64, m uint64) uint64  { pt("OrUint64", a); return res(atomic.OrUint64(a, m), hu64) }
+func AndUintptr(a *uintptr, m uintptr) uintptr {
+	pt("AndUintptr", a)
+	return res(atomic.AndUintptr(a, m), hup)
+}
+func OrUintptr(a *uintptr, m uintptr) uintptr {
+	pt("OrUintptr", a)
+	return res(atomic.OrUintptr(a, m), hup)
+}
+func AddUintptr(a *uintptr, d uintptr) uintptr {
+	pt("AddUintptr", a)
+	return res(atomic.AddUintptr(a, d), hup)
+}
+func LoadUintptr(a *uintptr) uintptr     { pt("LoadUintptr", a); return res(atomic.LoadUintptr(a), hup) }
+func StoreUintptr(a *uintptr, v uintptr) { pt("StoreUintptr", a); atomic.StoreUintptr(a, v) }
+func SwapUintptr(a *uintptr, v uintptr) uintptr {
+	pt("SwapUintptr", a)
+	return res(atomic.SwapUintptr(a, v), hup)
+}
+func CompareAndSwapUintptr(a *uintptr, o, n uintptr) bool {
+	pt("CompareAndSwapUintptr", a)
+	return res(atomic.CompareAndSwapUintptr(a, o, n), hb)
+}
+func SwapPointer(a *unsafe.Pointer, v unsafe.Pointer) unsafe.Pointer {
+	pt("SwapPointer", a)
+	return atomic.SwapPointer(a, v)
+}
+func CompareAndSwapPointer(a *unsafe.Pointer, o, n unsafe.Pointer) bool {
+	pt("CompareAndSwapPointer", a)
+	return res(atomic.CompareAndSwapPointer(a, o, n), hb)
+}
